@@ -4,7 +4,8 @@
    "direct" (alloc_memory), "new" / "newarray" (operator new / new[] with the allocator installed);
    for the C interface the function name.  Consumption follows the ideal choice (all matching
    designations), which does not change the set of call sequences.  `Ops' = the calls a configuration
-   explores (the C interface needs Fns # {} as well), so that one family of calls can be taken deeper. *)
+   explores (the C interface needs Fns # {} as well), so that one family of calls can be taken deeper.
+   For "install", `via' names the allocator the test installs as its malloc allocator. *)
 EXTENDS FailAlloc, Json
 CONSTANTS D, Vias, Fns, Ops
 VARIABLES h, done
@@ -20,8 +21,12 @@ GStep == /\ Len(h) < D /\ UNCHANGED done
             \/ "checkdone" \in Ops /\ CheckDone /\ Call("checkdone", "", 0, 0)
             \/ "clear" \in Ops /\ (pending # <<>> \/ count > 0) /\ Clear /\ Call("clear", "", 0, 0)
             \/ \E n \in Countdowns \cup {-1} : "countdown" \in Ops /\ Fns # {} /\ Countdown(n) /\ Call("countdown", "", 0, n)
-            \/ "setoom" \in Ops /\ Fns # {} /\ ~oom /\ SetOOM /\ Call("setoom", "", 0, 0)
-            \/ "setnotoom" \in Ops /\ Fns # {} /\ (oom \/ cd >= 0) /\ SetNotOOM /\ Call("setnotoom", "", 0, 0)
+            \* "setoom" = only when not out of memory; "setoom-again" = whenever (a second entry into the simulation before the clear)
+            \/ ("setoom-again" \in Ops \/ ("setoom" \in Ops /\ ~oom)) /\ Fns # {} /\ SetOOM /\ Call("setoom", "", 0, 0)
+            \* "setnotoom" = only when something is armed; "setnotoom-any" = whenever (a clear with nothing to clear, e.g. a defensive teardown)
+            \/ ("setnotoom-any" \in Ops \/ ("setnotoom" \in Ops /\ (oom \/ cd >= 0))) /\ Fns # {} /\ SetNotOOM /\ Call("setnotoom", "", 0, 0)
+            \* the test changes its malloc allocator (to the other one)
+            \/ \E a \in Allocators : "install" \in Ops /\ Fns # {} /\ a # sel /\ Install(a) /\ Call("install", a, 0, 0)
             \/ \E f \in Fns, x \in Locs : "c" \in Ops /\ CAlloc(f, x, Matching(x)) /\ Call("c", f, x, 0)
             \* the statistics calls (a read not twice in a row)
             \/ "countreset" \in Ops /\ Fns # {} /\ CountReset /\ Call("countreset", "", 0, 0)
